@@ -12,6 +12,7 @@ import (
 	"runtime"
 	stdsync "sync"
 	"sync/atomic"
+	"time"
 
 	"nrisim/sim"
 )
@@ -86,22 +87,26 @@ func where() string {
 func (m *RWMutex) lock(write bool) {
 	s := sim.Cur
 	if s == nil || s.IsSchedGoroutine() {
-		gmu.Lock()
-		if write {
-			if m.writer || m.readers > 0 {
+		for {
+			gmu.Lock()
+			if write && !m.writer && m.readers == 0 {
+				m.writer = true
 				gmu.Unlock()
-				panic("simsync: contended lock outside simulation at " + where())
+				return
 			}
-			m.writer = true
-		} else {
-			if m.writer {
+			if !write && !m.writer {
+				m.readers++
 				gmu.Unlock()
-				panic("simsync: contended rlock outside simulation at " + where())
+				return
 			}
-			m.readers++
+			gmu.Unlock()
+			if s != nil {
+				// the scheduler goroutine can never wait for a lock
+				panic("simsync: contended lock on the scheduler goroutine at " + where())
+			}
+			// outside any simulation (real-filesystem cases): really wait
+			time.Sleep(20 * time.Microsecond)
 		}
-		gmu.Unlock()
-		return
 	}
 	ch := make(chan struct{})
 	site := where()
